@@ -268,7 +268,7 @@ OPS = {
     "speedup.free_curve_intersections_workspace": lambda: _speedup.free_curve_intersections_workspace(),
     "speedup.triangle_workspace_sizes": lambda: list(_speedup.triangle_workspace_sizes()),
     "speedup.reset_triangle_workspaces": lambda a=-1, b=-1: _speedup.reset_triangle_workspaces(segment_ends_size=int(a), segments_size=int(b)),
-    "Triangle.intersect_summary": lambda n1, n2: _tri_isect_summary(n1, n2),
+    "Triangle.intersect_summary": lambda n1, n2, strat=None: _tri_isect_summary(n1, n2, strat),
     "Curve.from_presentation": lambda n, s: bezier.Curve.from_nodes(n).evaluate(s),
     "Curve.intersect_presentation": lambda n1, n2: bezier.Curve.from_nodes(n1).intersect(bezier.Curve.from_nodes(n2)),
     "Triangle.edges_twice": lambda n: _edges_twice(n),
@@ -284,8 +284,11 @@ OPS = {
 }
 
 
-def _tri_isect_summary(n1, n2):
-    res = tri(n1).intersect(tri(n2))
+def _tri_isect_summary(n1, n2, strat=None):
+    if strat is None:
+        res = tri(n1).intersect(tri(n2))
+    else:
+        res = tri(n1).intersect(tri(n2), strategy=getattr(bezier.hazmat.intersection_helpers.IntersectionStrategy, strat))
     out = []
     for r in res:
         if isinstance(r, bezier.Triangle):
@@ -324,9 +327,12 @@ def _self_traced(nodes):
         isects.append(np.array(res, order="F", copy=True))
         return res, flag
 
+    angle_nodes = []
+
     def angle_w(n):
         v = orig_angle(n)
         angles.append(bool(v < np.pi))
+        angle_nodes.append(np.array(n, order="F", copy=True))
         return v
     hz_geo.all_intersections = all_w
     hz_curve.discrete_turning_angle = angle_w
@@ -335,7 +341,7 @@ def _self_traced(nodes):
     finally:
         hz_geo.all_intersections = orig_all
         hz_curve.discrete_turning_angle = orig_angle
-    return [angles, isects, out]
+    return [angles, isects, out, angle_nodes]
 
 
 def _add_int(s, t, ints):
